@@ -4156,6 +4156,7 @@ impl Interpreter {
 
         // Set up environment for execution
         let saved_env = self.env.cheap_clone();
+        let saved_env_guards = self.env_guards.len();
         self.env = func_env;
         self.push_env_guard(func_guard);
 
@@ -4193,8 +4194,8 @@ impl Interpreter {
 
         let result = vm.run(self);
 
-        // Restore environment
-        self.pop_env_guard();
+        // Restore environment (a return from inside blocks leaves their guards behind too)
+        self.env_guards.truncate(saved_env_guards);
         self.env = saved_env;
         self.call_stack.pop();
 
